@@ -78,6 +78,8 @@ func sortedKV(m map[string]string) string {
 	return sb.String()
 }
 
+var c20BoundaryRe = regexp.MustCompile(`={15}[a-z0-9]{23}==`)
+
 var c20URLRe = regexp.MustCompile(`http://site\.test/[^"\\\s<]+`)
 
 // mailToken waits for a mail to this client's address containing a link whose
@@ -174,7 +176,7 @@ func c20Scripts() []c20Script {
 
 func c20Config(smtp bool) world.Config {
 	return world.Config{Modules: []string{"auth", "otp", "remember", "register", "confirm", "recover", "oauth2", "logout", "totp2fa", "recovery"},
-		EmailAuthRequired: true, MailGoroutine: true, SMTPMailer: smtp, RecoverLoginAfter: false, ModuleList: true}
+		EmailAuthRequired: true, MailGoroutine: true, SMTPMailer: smtp, LogMailer: !smtp, RecoverLoginAfter: false, ModuleList: true}
 }
 
 // c20Fixture builds a fresh instance and world for the given scripts.
@@ -213,15 +215,22 @@ func c20Outcome(c *c20Client) string {
 	}
 	r := c.w.DB.Users[c.pid]
 	fmt.Fprintf(&sb, "row: confirmed=%v pw=%s otps=%d recsel=%v tokens=%d\n", r.Confirmed, plainOr(r.Password), otpCount(r), r.RecoverSelector != "", len(c.w.DB.Tokens[c.pid]))
-	n := 0
+	// the mails addressed to this client, byte for byte (random MIME boundaries normalised), and
+	// the number of pieces of the mail stream that are not a whole mail to anybody
+	n, torn := 0, 0
 	for _, m := range c.w.Mails {
+		if len(m.To) == 0 {
+			torn++
+		}
 		for _, to := range m.To {
 			if to == c.pid {
 				n++
+				h := sha256.Sum256([]byte(c20BoundaryRe.ReplaceAllString(m.Text+"\x00"+m.HTML, "BOUNDARY")))
+				fmt.Fprintf(&sb, "mail#%d to=%v %s\n", n, m.To, hex.EncodeToString(h[:8]))
 			}
 		}
 	}
-	fmt.Fprintf(&sb, "mails=%d\n", n)
+	fmt.Fprintf(&sb, "mails=%d torn=%d\n", n, torn)
 	return sb.String()
 }
 
@@ -672,7 +681,7 @@ func c20RaceUnit(reps int) engine.Unit {
 func init() {
 	engine.Register(&engine.Property{
 		ID: "C20", Level: "model_checking",
-		Rule: "E5: every unordered pair (thorough: also triples) of five client scripts (register>confirm>login, login(rm)>restart>open, recover start>end, login>e-mail verify, login>otp add>logout>otp login), each client on its own account and browser, mail goroutines as threads of their own, with the shipped LogMailer-style mailer and with defaults.SMTPMailer; ALL schedules with at most 1 (quick) / 2 (thorough) preemptions at the harness seams are executed on the real instance, and in a second pass EVERY schedule without a preemption bound, pruned on a global state key (shared world + every thread's position and the hash of all environment answers it has received); oracle: per-client transcript equals the solo run, no deadlock, no two threads inside SMTPMailer's math/rand generator; plus the same bodies free-running under the Go race detector; states = distinct joint outcomes, transitions = scheduling decisions, traces validated = executed schedules",
+		Rule: "E5: every unordered pair (thorough: also triples) of five client scripts (register>confirm>login, login(rm)>restart>open, recover start>end, login>e-mail verify, login>otp add>logout>otp login), each client on its own account and browser, mail goroutines as threads of their own, with the shipped defaults.LogMailer (every Write of its stream a scheduling point) and with defaults.SMTPMailer; ALL schedules with at most 1 (quick) / 2 (thorough) preemptions at the harness seams are executed on the real instance, and in a second pass EVERY schedule without a preemption bound, pruned on a global state key (shared world + every thread's position and the hash of all environment answers it has received); oracle: per-client transcript (responses, session, own rows, and the mails addressed to the client byte for byte) equals the solo run, no torn mail, no deadlock, no two threads inside SMTPMailer's math/rand generator; plus the same bodies free-running under the Go race detector; states = distinct joint outcomes, transitions = scheduling decisions, traces validated = executed schedules",
 		Units: func(tier string) []engine.Unit {
 			var us []engine.Unit
 			n := len(c20Scripts())
